@@ -205,7 +205,29 @@ func (qz *quantizer) prov(v ssa.Value, d int) string {
 			}
 			if fa, ok := t.X.(*ssa.FieldAddr); ok {
 				st := fa.X.Type().Underlying().(*types.Pointer).Elem().Underlying().(*types.Struct)
-				return qz.prov(fa.X, d+1) + "." + st.Field(fa.Field).Name()
+				// a field of a struct literal is the value stored into it
+				if al, ok := fa.X.(*ssa.Alloc); ok {
+					for _, r := range *al.Referrers() {
+						fa2, ok := r.(*ssa.FieldAddr)
+						if !ok || fa2.Field != fa.Field {
+							continue
+						}
+						for _, rr := range *fa2.Referrers() {
+							if s, ok := rr.(*ssa.Store); ok && s.Addr == ssa.Value(fa2) {
+								return qz.prov(s.Val, d+1)
+							}
+						}
+					}
+				}
+				// a parameter bound to a struct literal by inlining: "&{f:X, …}.f" → X
+				base := qz.prov(fa.X, d+1)
+				name := st.Field(fa.Field).Name()
+				if strings.HasPrefix(base, "&{") && strings.HasSuffix(base, "}") {
+					if v, ok := literalField(base, name); ok {
+						return v
+					}
+				}
+				return base + "." + name
 			}
 			if inner := qz.prov(t.X, d+1); strings.HasPrefix(inner, "&cell:") {
 				return strings.TrimPrefix(inner, "&cell:")
@@ -216,6 +238,14 @@ func (qz *quantizer) prov(v ssa.Value, d int) string {
 	case *ssa.Lookup:
 		return qz.prov(t.X, d+1) + "[" + qz.prov(t.Index, d+1) + "]"
 	case *ssa.Alloc:
+		// a copy of a whole struct: *local = *src
+		for _, r := range *t.Referrers() {
+			if st, ok := r.(*ssa.Store); ok && st.Addr == ssa.Value(t) {
+				if ld, ok := st.Val.(*ssa.UnOp); ok && ld.Op == token.MUL {
+					return qz.prov(ld.X, d+1) // the copy denotes the same term
+				}
+			}
+		}
 		// a struct literal: its field stores
 		if _, st := namedStruct(t.Type().Underlying().(*types.Pointer).Elem()); st != nil {
 			var fs []string
@@ -271,6 +301,14 @@ func (qz *quantizer) boolOf(v ssa.Value, phis map[*ssa.Phi]*qf) *qf {
 	case *ssa.UnOp:
 		if t.Op == token.NOT {
 			return qNot(qz.boolOf(t.X, phis))
+		}
+	case *ssa.BinOp:
+		if isBoolType(t.X.Type()) && (t.Op == token.EQL || t.Op == token.NEQ) {
+			x, y := qz.boolOf(t.X, phis), qz.boolOf(t.Y, phis)
+			if t.Op == token.EQL {
+				return qIte(x, y, qNot(y))
+			}
+			return qIte(x, qNot(y), y)
 		}
 	case *ssa.Call:
 		if callee := t.Call.StaticCallee(); callee != nil && !qz.p.InModule(callee) {
@@ -725,4 +763,32 @@ func (qz *quantizer) provCell(v ssa.Value) string {
 		}
 	}
 	return qz.prov(v, 0)
+}
+
+// literalField extracts the value of field name from a rendered struct literal "&{a:X, b:Y}".
+func literalField(lit, name string) (string, bool) {
+	inner := lit[2 : len(lit)-1]
+	depth := 0
+	start := 0
+	var parts []string
+	for i := 0; i < len(inner); i++ {
+		switch inner[i] {
+		case '(', '{', '[':
+			depth++
+		case ')', '}', ']':
+			depth--
+		case ',':
+			if depth == 0 {
+				parts = append(parts, strings.TrimSpace(inner[start:i]))
+				start = i + 1
+			}
+		}
+	}
+	parts = append(parts, strings.TrimSpace(inner[start:]))
+	for _, p := range parts {
+		if strings.HasPrefix(p, name+":") {
+			return strings.TrimPrefix(p, name+":"), true
+		}
+	}
+	return "", false
 }
